@@ -125,6 +125,7 @@ func (gc *primaryGC) gc(ctx context.Context, lowUsePercent int64, timeLimit time
 		}
 		return 0, fmt.Errorf("cannot process freelist: %w", err)
 	}
+	verifhook.Yield("gc.afterFreeList")
 
 	// Remove all files in the affected set from the visited set.
 	for fileNum := range affectedSet {
